@@ -195,17 +195,51 @@ func TestC17_Identities(t *testing.T) {
 			}
 			name = "subexpression-vs-pipe"
 		case 6: // (P).s == P | s : parentheses end a projection like a pipe
-			p := gen.Pick(t, "proj", projKinds)
-			P := X.With(p, ast.Step{Kind: ast.SField, Name: gen.Key(t)})
-			s := gen.Pick(t, "after", []ast.Step{{Kind: ast.SField, Name: gen.Key(t)}, {Kind: ast.SIndex, Index: 0}, {Kind: ast.SIndex, Index: -1}, {Kind: ast.SListStar}, {Kind: ast.SFlatten}})
-			lhs = ast.Paren(P).With(s)
-			var right ast.Expr
+			p := gen.Pick(t, "proj", append(projKinds[:len(projKinds):len(projKinds)],
+				ast.Step{Kind: ast.SSlice, Stride: ast.I64(-1)}, ast.Step{Kind: ast.SSlice, Start: ast.I64(1), Stride: ast.I64(3)}, ast.Step{Kind: ast.SSlice, Stop: ast.I64(4)}))
+			var P *ast.Chain
+			switch rapid.IntRange(0, 3).Draw(t, "pshape") {
+			case 0:
+				P = X.With(p, ast.Step{Kind: ast.SField, Name: gen.Key(t)})
+			case 1:
+				P = X.With(p)
+			default:
+				// the projection applied to the current node itself, which is
+				// the value of X (an array, a string, anything)
+				switch {
+				case rapid.IntRange(0, 2).Draw(t, "curkind") == 0:
+					doc = jv.VStr(gen.Str(t))
+				case !xv.IsValue() || jv.HasLoose(xv.V):
+					doc = gen.Value(t, docCfg(), 0)
+				default:
+					doc = xv.V
+				}
+				P = &ast.Chain{Head: ast.Head{Kind: ast.HImplicit}, Steps: []ast.Step{p}}
+				if rapid.Bool().Draw(t, "ptrail") {
+					P = P.With(ast.Step{Kind: ast.SField, Name: gen.Key(t)})
+				}
+			}
+			after := func() ast.Step {
+				return gen.Pick(t, "after", []ast.Step{{Kind: ast.SField, Name: gen.Key(t)}, {Kind: ast.SIndex, Index: 0}, {Kind: ast.SIndex, Index: -1}, {Kind: ast.SListStar}, {Kind: ast.SFlatten},
+					{Kind: ast.SSlice, Start: ast.I64(0), Stop: ast.I64(1)}, {Kind: ast.SMultiList, Items: []ast.Expr{ast.Cur()}}, {Kind: ast.SMultiList, Items: []ast.Expr{ast.F(gen.Key(t))}},
+					{Kind: ast.SMultiHash, Keys: []string{"k"}, Items: []ast.Expr{ast.Cur()}}, {Kind: ast.SFilter, Cond: ast.Cur()}})
+			}
+			s := after()
+			for s.Kind == ast.SMultiList || s.Kind == ast.SMultiHash {
+				s = after() // a free-standing multi-select is not the same construct as a .[..] step
+			}
+			more := []ast.Step{}
+			for i := rapid.IntRange(0, 2).Draw(t, "nmore"); i > 0; i-- {
+				more = append(more, after())
+			}
+			lhs = ast.Paren(P).With(append([]ast.Step{s}, more...)...)
+			var right *ast.Chain
 			if s.Kind == ast.SField {
 				right = ast.F(s.Name)
 			} else {
 				right = &ast.Chain{Head: ast.Head{Kind: ast.HImplicit}, Steps: []ast.Step{s}}
 			}
-			rhs = ast.Bin("|", P, right)
+			rhs = ast.Bin("|", P, right.With(more...))
 			name = "paren-vs-pipe"
 		case 7: // {k: e}.k == e
 			k := gen.Key(t)
